@@ -187,6 +187,9 @@ func (e *Engine) VerifyFunc(key string) {
 			}
 		}
 		retTag := fmt.Sprintf("ret%d", ri+1)
+		if c := fx.assert(r.st, "vacuity", retTag, ts.False(), fi.Decl, nil, "canary: return at "+e.posStr(r.pos)+" is reachable (must be refutable)"); c != nil {
+			c.Canary = true
+		}
 		// escaping values and objects written must satisfy their invariants
 		fx.boundaryCheck(r.st, fi.Decl, "exit/"+retTag)
 		for _, v := range r.vals {
@@ -258,6 +261,9 @@ func (fx *fctx) runHooks(st *State, where string, n int, callee string, node ast
 		case *ast.RangeStmt:
 			pos = l.Body.Lbrace + 1
 		}
+		if where == "loopexit" {
+			pos = node.End()
+		}
 		b := fx.visibleBindings(st, pos)
 		for i, r := range rets {
 			b[fmt.Sprintf("ret%d", i)] = r
@@ -294,4 +300,64 @@ func (fx *fctx) runHooks(st *State, where string, n int, callee string, node ast
 		}
 		_ = e
 	}
+}
+
+// ghostAssignedIn lists ghost variables assigned by hooks whose anchor lies inside loop statement s.
+func (fx *fctx) ghostAssignedIn(s ast.Stmt) []string {
+	if fx.con == nil {
+		return nil
+	}
+	inside := func(p token.Pos) bool { return s.Pos() <= p && p <= s.End() }
+	set := map[string]bool{}
+	for _, h := range fx.con.Hooks {
+		if h.Stmts.Fn == nil {
+			continue
+		}
+		in := false
+		switch h.Where {
+		case "call":
+			for ce, ref := range fx.callIndex {
+				if ref.name == h.Callee && ref.n == h.N && inside(ce.Pos()) {
+					in = true
+				}
+			}
+		case "loopbegin", "loopend", "loopexit":
+			if h.N >= 1 && h.N <= len(fx.fi.Loops) {
+				l := fx.fi.Loops[h.N-1]
+				if h.Where == "loopexit" {
+					in = l != s && inside(l.Pos())
+				} else {
+					in = inside(l.Pos())
+				}
+			}
+		}
+		if !in {
+			continue
+		}
+		ast.Inspect(h.Stmts.Fn.Body, func(n ast.Node) bool {
+			switch a := n.(type) {
+			case *ast.AssignStmt:
+				for _, l := range a.Lhs {
+					if id, ok := l.(*ast.Ident); ok {
+						if _, isG := fx.ghostVar[id.Name]; isG {
+							set[id.Name] = true
+						}
+					}
+				}
+			case *ast.IncDecStmt:
+				if id, ok := a.X.(*ast.Ident); ok {
+					if _, isG := fx.ghostVar[id.Name]; isG {
+						set[id.Name] = true
+					}
+				}
+			}
+			return true
+		})
+	}
+	var out []string
+	for k := range set {
+		out = append(out, k)
+	}
+	sort.Strings(out)
+	return out
 }
